@@ -527,20 +527,23 @@ class Engine(MemMixin, OpsMixin, ExecMixin):
 
     # ------------------------------------------------------------ bits
     def bits_of(self, v):
+        """per-bit provenance (LSB first); unknown bits are None"""
         if v.bits is not None:
             return v.bits
         w, sg = self.int_info(v.ty)
         if v.lin.is_const() and v.lin.c >= 0:
             c = v.lin.c
             return tuple((c >> k) & 1 for k in range(w))
-        return None
+        if v.mask is not None:
+            return tuple(None if (v.mask >> k) & 1 else 0 for k in range(w))
+        return (None,) * w
 
     def mask_of(self, st, v):
         if v.lin.is_const():
             return v.lin.c if v.lin.c >= 0 else None
         m = None
         b = v.bits
-        if b is not None:
+        if b is not None and any(x == 0 for x in b):
             m = 0
             for k, x in enumerate(b):
                 if x != 0:
